@@ -423,7 +423,7 @@ pub fn strategy() -> BoxedStrategy<Case> {
     prop_oneof![
         3 => (prob_spec(6, 0.5, 8.0), common(), ev.prop_map(|ev| Rel::Reflect { ev })).prop_map(mk),
         2 => (prob_spec(4, 0.5, 8.0).prop_flat_map(|p| { let n: usize = p.blocks.iter().map(|b| b.dim()).sum(); (Just(p), crate::evgen::recipes(n, 4, 0.4)) }), common()).prop_map(|((p, r), cm)| (p, cm, Rel::ReflectEvents { recipes: r })).prop_map(mk),
-        3 => (linear_spec(6, false, 0.5, 8.0), common(), (-60i32..=60).prop_map(|k| Rel::Scale { k })).prop_map(mk),
+        3 => (linear_spec(6, false, 0.5, 8.0), common(), prop_oneof![4 => (-60i32..=60).boxed(), 1 => (-600i32..=600).boxed()].prop_map(|k| Rel::Scale { k })).prop_map(mk),
         2 => (prob_spec(6, 0.5, 8.0), common(), Just(Rel::TolVec)).prop_map(mk),
         2 => (prob_spec(3, 0.5, 6.0), common(), (2usize..=16).prop_map(|m| Rel::Copies { m })).prop_map(mk),
         1 => (prob_spec(1, 0.5, 6.0), common(), (proptest::collection::vec(fr(1.5, 6.0), 1..=3), prop_oneof![Just(2usize), Just(3), Just(16)], fr(-3.0, 0.0)).prop_map(|(lam_exp, m, fs_exp)| Rel::CopiesStiff { lam_exp, m, fs_exp })).prop_map(mk),
